@@ -78,35 +78,14 @@ def rule_escape_emit(rep, rule="C-esc"):
 # ------------------------------------------------------------------------------------ C-unesc
 
 
-def _helper_undouble_summary(fn: FuncInfo):
-    """For _fetchRow/_fetchTextRow: (number of un-doublings applied to the returned word, ordered-after-delimiter-strip?)."""
-    rets = [n for n in ast.walk(fn.node) if isinstance(n, ast.Return) and n.value is not None]
-    if len(rets) != 1 or not isinstance(rets[0].value, ast.Tuple):
-        return None
-    word = rets[0].value.elts[0]
-    if not isinstance(word, ast.Name):
-        return None
-    stmts = [s for s in fn.node.body if isinstance(s, ast.Assign) and len(s.targets) == 1 and isinstance(s.targets[0], ast.Name) and s.targets[0].id == word.id]
-    und = [i for i, s in enumerate(stmts) if tf.is_undouble(s.value)]
-    strip = [i for i, s in enumerate(stmts) if isinstance(s.value, ast.Subscript) and isinstance(s.value.slice, ast.Slice)
-             and norm(s.value.slice.lower or ast.Constant(0)) == "1" and norm(s.value.slice.upper or ast.Constant(0)) == "-1"]
-    uncond_strip = bool(strip)
-    ordered = bool(und) and bool(strip) and min(und) > max(strip)
-    return len(und), ordered, uncond_strip
-
-
 def rule_unescape_read(rep, rule="C-unesc"):
     """Every name / label the readers return has been un-doubled exactly once, after its delimiters were removed."""
     idx = common.ctx()
     total = 0
-    helpers = {}
-    for h in ("_fetchRow", "_fetchTextRow"):
-        f = idx.get("utilities.textgrid_io:" + h)
-        helpers[h] = _helper_undouble_summary(f)
     for spec in (LONG_R, SHORT_R):
         fn = idx.get(spec)
         rep.functions.add(fn.qual)
-        sites = []  # (kind, stmt, name-node)
+        sites = []  # (kind, stmt, expr)
         for s in tf.stmts_in_order(fn):
             for n in ast.walk(s) if isinstance(s, (ast.Expr, ast.Assign)) else []:
                 if isinstance(n, ast.Call) and norm(n.func) in ("Interval", "Point") and n.args:
@@ -117,33 +96,33 @@ def rule_unescape_read(rep, rule="C-unesc"):
                             sites.append(("tier name", s, v))
         for kind, stmt, node in sites:
             total += 1
-            if not isinstance(node, ast.Name):
-                rep.undecided(rule, fn.short, kind + ": " + norm(node), "payload is not a plain variable")
+            info = tf.payload_ops(idx, fn, stmt, node)
+            if info is None:
+                rep.undecided(rule, fn.short, kind + ": " + norm(node)[:50], "derivation of the payload from the file text is outside the modelled forms")
                 continue
-            ch = tf.chain_of(fn, stmt, node.id)
-            count = sum(1 for v in ch.steps if tf.is_undouble(v))
-            src = ch.source
-            how = "?"
-            ordered = True
-            if isinstance(src, ast.Call) and norm(src.func) in ("_fetchTextRow", "_fetchRow"):
-                summ = helpers.get(norm(src.func))
-                if summ is None:
-                    rep.undecided(rule, fn.short, kind, "helper %s has an unexpected shape" % norm(src.func))
+            ops = info["ops"]
+            count = ops.count("undouble")
+            how = info["source"]
+            if how == "regex-group":
+                pat = info.get("pattern") or ""
+                # the capture group must exclude the delimiting quotes
+                quoted_group = '\\"(' in pat and ')\\"' in pat
+                if not quoted_group:
+                    rep.undecided(rule, fn.short, kind + " <- regex group", "capture group is not delimited by the field's quotes: %r" % pat)
                     continue
-                count += summ[0]
-                ordered = summ[1] if summ[0] else True
-                how = norm(src.func)
-            elif src is not None and "reSearch" in norm(src):
-                how = "regex group"
-            elif src is None:
-                rep.undecided(rule, fn.short, kind + ": " + node.id, "raw source of the payload not found in the enclosing blocks")
-                continue
-            if count == 1 and ordered:
-                rep.proved(rule, fn.short, "%s <- %s" % (kind, how), "un-doubled exactly once, after the delimiters were removed", loc=fn.where(stmt))
-            elif count == 1:
-                rep.refuted(rule, fn.short, "%s <- %s" % (kind, how), "quotes are un-doubled BEFORE the delimiting quotes are stripped: a label made only of quotes loses one (\"\"\"\" -> \"\")", loc=fn.where(stmt))
+                ordered = True
             else:
-                rep.refuted(rule, fn.short, "%s <- %s" % (kind, how), "payload is un-doubled %d time(s); the writer doubles every quote exactly once, so a label containing '\"' does not come back character for character" % count, loc=fn.where(stmt))
+                ordered = "unquote" in ops and (count == 0 or ops.index("unquote") < ops.index("undouble"))
+                if "unquote" not in ops:
+                    rep.undecided(rule, fn.short, "%s <- %s" % (kind, how), "delimiting quotes are not removed by a [1:-1] slice: %s" % ops)
+                    continue
+            what = "%s <- %s" % (kind, how)
+            if count == 1 and ordered and "double" not in ops:
+                rep.proved(rule, fn.short, what, "un-doubled exactly once, after the delimiters were removed (%s)" % " > ".join(ops), loc=fn.where(stmt))
+            elif count == 1 and "double" not in ops:
+                rep.refuted(rule, fn.short, what, "quotes are un-doubled BEFORE the delimiting quotes are stripped (%s): a label made only of quotes loses one" % " > ".join(ops), loc=fn.where(stmt))
+            else:
+                rep.refuted(rule, fn.short, what, "payload is un-doubled %d time(s) (%s); the writer doubles every quote exactly once, so a label containing '\"' does not come back character for character" % (count, " > ".join(ops) or "no operation"), loc=fn.where(stmt))
     rep.floor(rule, 6, "2 parsers x (tier name, interval label, point label)")
     return total
 
@@ -152,7 +131,7 @@ def rule_label_regex(rep, rule="C-regex-label"):
     """The long parser's payload regexes capture greedily up to the last quote of the field and span lines."""
     fn = _fn(LONG_R)
     n = 0
-    for call, pat, flags in tf.regex_literals(fn):
+    for call, pat, flags in tf.regex_literals(fn, common.ctx()):
         m = re.match(r"(name|text|mark) \?= \?\\\"\(", pat)
         if not m:
             continue
@@ -179,7 +158,7 @@ def rule_numeric_regex(rep, tier, rule="C-num-regex"):
         if s.conv == "s" and not s.quoted:
             templates.setdefault(s.key, s.template)
     n = 0
-    for call, pat, flags in tf.regex_literals(rd):
+    for call, pat, flags in tf.regex_literals(rd, idx):
         m = re.match(r"(xmin|xmax|number)", pat)
         if not m:
             continue
@@ -296,6 +275,25 @@ def rule_exact_formatter(rep, rule="C-exact"):
     rep.floor(rule, 3)
 
 
+def _is_enumerate_index(fn, arg) -> bool:
+    """arg is the index variable of a `for i, x in enumerate(...)` loop (an integer by construction)."""
+    if not isinstance(arg, ast.Name):
+        return False
+    for lp in ast.walk(fn.node):
+        if isinstance(lp, (ast.For, ast.comprehension)) and isinstance(lp.iter, ast.Call) and norm(lp.iter.func) == "enumerate" and isinstance(lp.target, ast.Tuple) and lp.target.elts:
+            if isinstance(lp.target.elts[0], ast.Name) and lp.target.elts[0].id == arg.id:
+                return True
+    return False
+
+
+def _loop_collection(lp) -> str:
+    """The collection a for-loop walks, with an enumerate(...) wrapper (any start) removed."""
+    it = lp.iter
+    if isinstance(it, ast.Call) and norm(it.func) == "enumerate" and it.args:
+        it = it.args[0]
+    return norm(it)
+
+
 def rule_numeric_slots(rep, rule="C-numslot"):
     """Every number the two text emitters write goes through numToStr (or is an integer count/index)."""
     idx = common.ctx()
@@ -309,7 +307,7 @@ def rule_numeric_slots(rep, rule="C-numslot"):
                 continue
             if s.conv == "d":
                 t = norm(arg)
-                good = t.startswith("len(") or re.fullmatch(r"\w+ \+ 1", t) is not None
+                good = t.startswith("len(") or re.fullmatch(r"\w+ \+ 1", t) is not None or _is_enumerate_index(fn, arg)
                 rep.check(good, rule, fn.short, "%s <- %s" % (s.template.strip(), t), ok="integer count / 1-based index", bad="a '%d' slot is fed by something that is not a count or an index", loc=fn.where(s.node), nontrivial=False)
                 continue
             if s.conv in ("s", "r"):
@@ -348,7 +346,7 @@ def rule_sizes(rep, rule="C-size"):
             # resolve a local alias (entries = tier["entries"])
             d = tf.single_def(fn, coll) if re.fullmatch(r"\w+", coll) else None
             alias = norm(d) if d is not None else None
-            match = [lp for lp in loops if norm(lp.iter) in (coll, "enumerate(%s)" % coll) or (alias and norm(lp.iter) in (alias, "enumerate(%s)" % alias))]
+            match = [lp for lp in loops if _loop_collection(lp) == coll or (alias and _loop_collection(lp) == alias)]
             if not match:
                 rep.refuted(rule, fn.short, t, "the declared size is len(%s) but no loop iterates %s" % (coll, coll), loc=fn.where(s.node))
                 continue
@@ -622,19 +620,15 @@ def rule_duplicate_names(rep, rule="C-dupnames"):
     idx = common.ctx()
     fn = idx.get("textgrid:openTextgrid")
     rep.functions.add(fn.qual)
-    loops = [s for s in fn.node.body if isinstance(s, ast.For) and "tiers" in norm(s.iter)]
-    if len(loops) != 1:
-        rep.vanished(rule, fn.short, "for tier in tgAsDict['tiers']", "duplicate-name loop not found")
+    body = fn.node.body
+    parse_pos = [i for i, st_ in enumerate(body) if any(isinstance(n, ast.Call) and norm(n.func).endswith("parseTextgridStr") for n in ast.walk(st_))]
+    ret_pos = [i for i, st_ in enumerate(body) if isinstance(st_, ast.Return)]
+    if len(parse_pos) != 1 or len(ret_pos) != 1 or not isinstance(body[parse_pos[0]], ast.Assign):
+        rep.vanished(rule, fn.short, "tgAsDict = parseTextgridStr(...) ... return", "cannot locate the statements between parsing and building the Textgrid")
         return
-    # local initialisations between the parse call and the loop (tierNames = [], counters, ...)
-    pos = fn.node.body.index(loops[0])
-    start = max([i for i, s in enumerate(fn.node.body[:pos]) if any(isinstance(n, ast.Call) and norm(n.func).endswith("parseTextgridStr") for n in ast.walk(s))] or [0])
-    inits = [s for s in fn.node.body[start + 1:pos] if isinstance(s, (ast.Assign, ast.AnnAssign))]
-    if len(loops) != 1 or not inits:
-        rep.vanished(rule, fn.short, "for tier in tgAsDict['tiers']", "duplicate-name loop not found")
-        return
-    loop = loops[0]
-    dict_name = norm(loop.iter.value) if isinstance(loop.iter, ast.Subscript) else None
+    dict_name = norm(body[parse_pos[0]].targets[0])
+    middle = body[parse_pos[0] + 1:ret_pos[0]]
+    loop = middle[0] if middle else body[parse_pos[0]]
     cases = [["a", "b"], ["w", "w"], ["Mary", "Mary", "Mary"], ["A", "B", "A", "B"], ["w", "w_2", "p", "w"], ["A", "A_2", "A", "B", "A"], ["x", "x_2", "x_3", "x", "x"]]
     st = State([("0", Lin.num(0))], [0])
     for mode in ("error", "rename"):
@@ -644,9 +638,8 @@ def rule_duplicate_names(rep, rule="C-dupnames"):
             tiers = Lst([DictVal({"name": n, "class": "IntervalTier"}) for n in names])
             env = {"__fn__": fn, dict_name: DictVal({"tiers": tiers}), "duplicateNamesMode": mode}
             try:
-                for s in inits:
-                    I.exec_stmt(s, env)
-                I.exec_stmt(loop, env)
+                for s_ in middle:
+                    I.exec_stmt(s_, env)
                 out = [t.d["name"] for t in tiers.items]
                 raised = None
             except PyRaise as e:
